@@ -19,6 +19,10 @@ import time
 
 VERIF = os.path.dirname(os.path.dirname(os.path.abspath(__file__)))
 REPO = os.environ.get("VERIF_REPO", "/repo")
+# evidence describes /repo; a run pointed at another tree (VERIF_REPO=<scratch worktree>, used to evaluate seeded
+# changes) must not overwrite it
+EVDIR = os.path.join(VERIF, "evidence") if REPO == "/repo" else os.path.join(
+    os.environ.get("VERIF_SCRATCH_BASE") or tempfile.gettempdir(), "verif-evidence-other-tree")
 NCPU = os.cpu_count() or 4
 
 GOENV = {
@@ -317,8 +321,8 @@ class Ctx:
             "coverage": cov, "assumptions": self.assumptions, "wall_s": round(time.time() - self.t0, 1),
             "violations": len(self.violations), "known_findings_seen": self.known_seen, "notes": self.notes,
         }
-        os.makedirs(os.path.join(VERIF, "evidence"), exist_ok=True)
-        with open(os.path.join(VERIF, "evidence", self.pid + ".json"), "w") as f:
+        os.makedirs(EVDIR, exist_ok=True)
+        with open(os.path.join(EVDIR, self.pid + ".json"), "w") as f:
             json.dump(ev, f, indent=1, default=str)
         for what, path in self.violations:
             print("VIOLATION property=%s replay=%s" % (self.pid, path), flush=True)
@@ -356,7 +360,8 @@ def run_check(pid, fn, argv=None):
             cov = dict(ctx.cov)
             if not cov["samples"]:
                 cov["samples"] = ["(inconclusive run)"]
-            with open(os.path.join(VERIF, "evidence", pid + ".json"), "w") as f:
+            os.makedirs(EVDIR, exist_ok=True)
+            with open(os.path.join(EVDIR, pid + ".json"), "w") as f:
                 json.dump({"property_id": pid, "tier": ctx.tier, "seed": ctx.seed, "level": "model_checking",
                            "coverage": cov, "assumptions": ctx.assumptions,
                            "wall_s": round(time.time() - ctx.t0, 1), "violations": 0, "notes": ctx.notes}, f,
